@@ -268,3 +268,94 @@ def nego_affix(c, where, sidx):
     else:
         ans = base[:4] + c + base[4:]
     return nego([a, b], None, A_OK, ans, 0, False, [1], 100)
+
+
+# ------------------------------------------------------------------ a second handshake on the same streams
+class _AnsLast(_Ans):
+    """answers the most recent initialize request on the wire"""
+
+
+class _Script2(list):
+    def __getitem__(self, n):
+        t, it = list.__getitem__(self, n)
+        if isinstance(it, _Ans):
+            rid = None
+            for _tk, m in ENV.wire:
+                d = dump(m)
+                if d.get("method") == "initialize":
+                    rid = d["id"]
+            it = _answer(it, rid)
+        return (t, it)
+
+
+def renego(first_ok, sup1_sel, ans1_sel, sup2_sel, ans2_sel, tracked):
+    """handshake 1 (supported list 1, server answers ans1), then handshake 2 on the SAME streams (and the same tracked
+    client) with supported list 2 and answer ans2: the second one is judged by its own list only - whatever the
+    first one settled on or failed with"""
+    def lst(sel):
+        a, b, c = REAL[0], REAL[1], REAL[2]
+        if sel == 0:
+            return [a, b]
+        if sel == 1:
+            return [a]
+        if sel == 2:
+            return [b, c]
+        if sel == 3:
+            return [c]
+        return [b]
+
+    def ver(sel):
+        if sel == 0:
+            return REAL[0]
+        if sel == 1:
+            return REAL[1]
+        if sel == 2:
+            return REAL[2]
+        return "1999-12-31"
+
+    sup1, sup2 = lst(sup1_sel), lst(sup2_sel)
+    ans1, ans2 = ver(ans1_sel), ver(ans2_sel)
+    client = _mk_client() if tracked else None
+    items = [(1, _Ans(A_OK if first_ok else A_ERROR, ans1, -32603)), (50, _Ans(A_OK, ans2, 0))]
+
+    async def both(r, w):
+        res = {}
+        for j, sup in ((1, sup1), (2, sup2)):
+            try:
+                if tracked:
+                    v = await INIT.send_initialize_with_client_tracking(r, w, client=client, timeout=Ticks(100), supported_versions=list(sup), preferred_version=None)
+                else:
+                    v = await INIT.send_initialize(r, w, timeout=Ticks(100), supported_versions=list(sup), preferred_version=None)
+                res[j] = ("result", getattr(v, "protocolVersion", None))
+            except HarnessError:
+                raise
+            except Exception as e:
+                res[j] = ("raised", type(e).__name__)
+            res["wire%d" % j] = len(ENV.wire)
+        return res
+
+    out = run_stub(_Script2(items), both)
+    if out.kind != "result":
+        return "handshakes-ended-otherwise:" + str(out.kind) + ":" + str(out.text)
+    res = out.value
+    wire = [dump(m) for _, m in out.wire]
+    w2 = wire[res["wire1"]:]
+    if not w2 or w2[0].get("method") != "initialize" or (w2[0].get("params") or {}).get("protocolVersion") != sup2[0]:
+        return "second-handshake:wrong-proposal"
+    inits2 = [w for w in w2[1:] if w.get("method") == "notifications/initialized"]
+    k2, v2 = res[2]
+    if _in(ans2, sup2):
+        if k2 != "result" or v2 != ans2:
+            return "second-handshake:acceptable-answer-rejected:" + str(k2) + ":" + str(v2)
+        if len(inits2) != 1:
+            return "second-handshake:not-exactly-one-initialized"
+        if tracked and client.batch_processor.protocol_version != ans2:
+            return "second-handshake:tracked-version-is-not-the-answer"
+    else:
+        if k2 == "result":
+            return "second-handshake:settled-on-version-not-offered"
+        if inits2:
+            return "second-handshake:initialized-sent-although-not-accepted"
+        if not (k2 == "raised" and v2 == "VersionMismatchError"):
+            return "second-handshake:expected-version-mismatch:got-" + str(v2)
+    return "ok"
